@@ -448,12 +448,17 @@ def case_features(stats):
     return feats
 
 
-def run_property(pid, P, cases, tier, seed, replay=False):
+def run_property(pid, P, cases, tier, seed, replay=False, boost=1):
     if P.get('runner') and cases is None:
         return P['runner'](pid, P, tier, seed)
     tags = set(P['tags'])
     if cases is None:
         cases = corpus_cases(pid, 'containers' if P.get('kind') == 'containers' else '') + P['gen'](seed, tier)
+        # a source tree that differs from the one the models were validated against: more seeds
+        for extra in range(1, boost):
+            more = P['gen'](seed + 7919 * extra, tier)
+            have = set(c[0].split()[1] for c in cases)
+            cases += [c for c in more if c[0].split()[1] not in have]
     failures = []
     cov = dict(evaluations=0, distinct_nontrivial=0, rule=P['rule'], samples=[], verdicts={}, features={})
     seen = set()
